@@ -2,7 +2,7 @@
 From Coq Require Import ZArith List Bool Sorting.Permutation Sorting.Sorted.
 From Flocq Require Import IEEE754.BinarySingleNaN.
 From Rscel Require Import Base.Prims Base.F64 Model.Value Model.Ops Model.Funcs Spec.Wf.
-From Rscel Require Import Proofs.F64Facts Proofs.OpsOrder Proofs.EqMaps Proofs.EqSym.
+From Rscel Require Import Proofs.F64Facts Proofs.OpsOrder Proofs.EqMaps Proofs.EqSym Proofs.MinMax.
 Import ListNotations.
 Open Scope Z_scope.
 
@@ -133,3 +133,26 @@ Example C04_witness :
   lt (VInt (-1)) (VUInt 18446744073709551615) = VBool true /\
   ord (VString [97]) (VInt 1) = inr EInvalidOp.
 Proof. vm_compute. repeat split. Qed.
+
+(** min / max return the FIRST least / greatest argument: whenever the comparison used is the strict
+    order induced by a rank on the arguments, the scan returns the first argument of best rank ... *)
+Theorem C04_pick_first_best : forall better rank rest cur,
+  (forall a b, In a (cur :: rest) -> In b (cur :: rest) -> better a b = (rank a <? rank b)) ->
+  let m := pick better cur rest in
+  (forall v, In v (cur :: rest) -> rank m <= rank v) /\
+  exists pre post, cur :: rest = pre ++ m :: post /\ forall v, In v pre -> rank m < rank v.
+Proof. exact pick_first_best. Qed.
+Print Assumptions C04_pick_first_best.
+
+(** ... instantiated for integer arguments *)
+Theorem C04_min_ints_first_least : forall z zs,
+  exists m pre post, min_impl (map VInt (z :: zs)) = ROk (VInt m) /\ z :: zs = pre ++ m :: post /\
+    (forall v, In v (z :: zs) -> m <= v) /\ (forall v, In v pre -> m < v).
+Proof. exact min_ints_first_least. Qed.
+Print Assumptions C04_min_ints_first_least.
+
+Theorem C04_max_ints_first_greatest : forall z zs,
+  exists m pre post, max_impl (map VInt (z :: zs)) = ROk (VInt m) /\ z :: zs = pre ++ m :: post /\
+    (forall v, In v (z :: zs) -> v <= m) /\ (forall v, In v pre -> v < m).
+Proof. exact max_ints_first_greatest. Qed.
+Print Assumptions C04_max_ints_first_greatest.
